@@ -106,6 +106,17 @@ derive_secrets(const struct item *it, struct secret *s)
                         ref_aes_enc(&ak, j0, s[n].v);
                         snprintf(s[n++].name, sizeof s[0].name, "EJ0");
                 }
+        } else if (it->cipher == IMB_CIPHER_CCM && it->iv_len >= 7 && it->iv_len <= 13) {
+                /* S0 = E_K(A0), the mask of the CBC-MAC value (tag = T xor S0) */
+                struct ref_aes_key ak;
+                uint8_t a0[16] = { 0 };
+                memset(&ak, 0, sizeof ak);
+                ak.keylen = (int) it->keylen;
+                memcpy(ak.key, it->k.ckey, it->keylen);
+                a0[0] = (uint8_t) (15 - it->iv_len - 1);
+                memcpy(a0 + 1, it->iv, it->iv_len);
+                ref_aes_enc(&ak, a0, s[n].v);
+                snprintf(s[n++].name, sizeof s[0].name, "S0");
         } else if (it->cipher == IMB_CIPHER_SM4_GCM) {
                 ref_sm4_enc(it->k.ckey, z, s[n].v);
                 snprintf(s[n++].name, sizeof s[0].name, "H");
